@@ -121,5 +121,6 @@ def obligations(tier):
     ks = range(10) if tier == "thorough" else (0, 3, 5, 8)
     for k in ks:
         obs.append(Ob("C08.asts_imports", F, "asts_imports", 300, part=str(k), what="ensure/prevent_ast for a node kind (partition) and ensure/prevent_import"))
+    obs.append(Ob("C08.default_root", F, "default_root", 300, what="history on one report: default check, then a helper parses other code via student_code=, then ensure_ast / prevent_ast / find_operation without root= still describe the submission"))
     obs.append(Ob("C08.calls_reach", F, "calls_reach", 60, expect="refute", what="twin: prevent_function_call fires"))
     return obs
